@@ -185,7 +185,7 @@ def run(ctx, canary=False):
         ctx.case(json.dumps(info, sort_keys=True), nontrivial=True)
         if "crash" in res:
             ctx.violation("LocalInference.estimate (oracle %s, %d iterations) raised %s" % (oracle, iters, res["crash"]), info,
-                          {"kind": "crash", "oracle": oracle, "damping": "damping" in res["crash"]})
+                          {"kind": "crash", "oracle": oracle, "damping": "damping" in res["crash"], "recursion": "RecursionError" in res["crash"]})
             continue
         maxdepth = max(maxdepth, res["depth"])
         info.update(loss=res.get("loss"), uniform_loss=res.get("l0"))
